@@ -4,6 +4,7 @@ import (
 	"fmt"
 	"os"
 	"sync"
+	"sync/atomic"
 	"time"
 
 	"google.golang.org/protobuf/types/known/anypb"
@@ -290,4 +291,71 @@ func dumpRace(c *ctx, rt string) {
 	mu.Unlock()
 	c.count("dump-race", 1)
 	c.emit(obj{"op": "handlers-order", "kind": "dump", "rt": rt, "n": "parked", "obs": obj{"events": ev, "hang": hang}})
+}
+
+// lockStress: one large response of a partial type (every name subscribed) is handled while two goroutines keep changing
+// the interest set of that type. The receiver's interest filter reads under the client lock, the subscriptions write
+// under it: whatever the interleaving inside the filter loop (there is no yield point there), both sides finish - a
+// read lock that is taken again by its own holder deadlocks as soon as a writer queues up between the two.
+func lockStress(c *ctx, rt string, n int) {
+	w, err := newWorld(worldOpts{ndsNotRequired: true, fetchTimeout: time.Second})
+	if err != nil {
+		fmt.Println("c07h: world:", err)
+		return
+	}
+	defer w.close()
+	T := rtOf(rt)
+	var anys []*anypb.Any
+	for i := 0; i < n; i++ {
+		nm := fmt.Sprintf("s%04d", i)
+		w.m.VerifWatch(T, nm, false)
+		anys = append(anys, anyStamped(rt, nm, nm+"#1"))
+	}
+	w.settle()
+	stop := make(chan struct{})
+	var wg sync.WaitGroup
+	var changes int64
+	for g := 0; g < 2; g++ {
+		wg.Add(1)
+		go func(g int) {
+			defer wg.Done()
+			for i := 0; ; i++ {
+				select {
+				case <-stop:
+					return
+				default:
+				}
+				w.m.VerifWatch(T, fmt.Sprintf("extra-%d", g), i%2 == 1)
+				atomic.AddInt64(&changes, 1)
+			}
+		}(g)
+	}
+	time.Sleep(2 * time.Millisecond)
+	w.feed(mkResp(urlOf(rt), "v1", "n1", anys))
+	applied := w.waitFor(func() bool {
+		// (only the manager's lock is taken here: an observation that needs the client's lock would hang with the client)
+		snap, _ := w.m.VerifSnapshot()
+		return len(snap[T]) >= n
+	}, 6*time.Second)
+	close(stop)
+	finished := make(chan struct{})
+	go func() { wg.Wait(); close(finished) }()
+	watchersDone := true
+	select {
+	case <-finished:
+	case <-time.After(3 * time.Second):
+		watchersDone = false
+	}
+	state := ""
+	if !applied || !watchersDone {
+		if goroutineIn("sync.RWMutex.RLock", "manager.(*xdsClient).handle") || goroutineIn("semacquire", "manager.(*xdsClient).handle") {
+			state = "the receiver waits for the client's read lock inside a response handler"
+		}
+		if goroutineIn("sync.RWMutex.Lock", "manager.(*xdsClient).Watch") || goroutineIn("semacquire", "manager.(*xdsClient).Watch") {
+			state += "; a subscription waits for the client's write lock"
+		}
+	}
+	c.count("lock-stress", 1)
+	c.emit(obj{"op": "handlers-order", "kind": "lock-stress", "rt": rt, "n": fmt.Sprint(n),
+		"obs": obj{"events": []string{}, "applied": applied, "watchersDone": watchersDone, "changes": atomic.LoadInt64(&changes), "state": state}})
 }
